@@ -76,7 +76,7 @@ def fide(spec, r, knobs):
             return ind(d) + f"<var>{escape(t)}</var>" + nl
         op = t[0]
         tag = {"NOT": "not", "AND": "conj", "OR": "disj", "IMPLIES": "imp", "EQUIVALENCE": "eq"}[op]
-        return ind(d) + f"<{tag}>" + nl + "".join(rule(x, d + 1) for x in t[1:]) + ind(d) + f"</{tag}>" + nl
+        return ind(d) + f"<{tag}>" + nl + "".join([rule(x, d + 1) for x in t[1:]]) + ind(d) + f"</{tag}>" + nl
 
     def flatten(t):
         """n-ary conj/disj: flatten nested same-operator chains (meaning preserved)."""
